@@ -145,6 +145,14 @@ func valuePaths(v ssa.Value) []string {
 		case *ssa.TypeAssert:
 			return rec(v.X, depth+1, seen)
 		case *ssa.Extract:
+			if v.Index == 0 {
+				switch t := v.Tuple.(type) {
+				case *ssa.TypeAssert:
+					return rec(t, depth+1, seen)
+				case *ssa.Lookup:
+					return rec(t, depth+1, seen)
+				}
+			}
 			return one(v.Tuple, fmt.Sprintf("#%d", v.Index))
 		case *ssa.Phi:
 			var out []string
